@@ -43,3 +43,24 @@ Proof.
     destruct (has_prefix "goat.bitcoin." (m_name m)); [discriminate|]. destruct (has_prefix "goat.relayer." (m_name m)); discriminate.
   - rewrite Hn in Hc. vm_compute in Hc. discriminate.
 Qed.
+
+(* converse of admitted_sound: the guard demands nothing beyond the listed conditions, so the
+   characterisation is exact (an honest relayer transaction / block transaction is never turned away) *)
+Theorem admitted_complete md h t :
+  a_memo_len t = 0 -> a_nsigners t = 1 -> (a_timeout t = 0 \/ h <= a_timeout t) -> a_sig_ok t = true ->
+  (forall m, In m (a_msgs t) ->
+    (is_relayer_module_msg (m_name m) = true /\ m_by_proposer m = true) \/
+    (m_name m = eth_block_msg /\ (md = MProcess \/ md = MFinalize) /\ a_timeout t = h)) ->
+  admitted md h t = true.
+Proof.
+  intros A B C D E. unfold admitted, guard. rewrite D.
+  assert (F : forallb (msg_ok md h t) (a_msgs t) = true).
+  { apply forallb_forall. intros m Hm. specialize (E m Hm). unfold msg_ok, relayer_tx_only.
+    assert (G : String.eqb (m_name m) eth_block_msg = true -> is_relayer_module_msg (m_name m) = false).
+    { intros He. apply String.eqb_eq in He. rewrite He. vm_compute. reflexivity. }
+    destruct E as [[E1 E2]|(E1 & E2 & E3)].
+    - rewrite E1, E2. destruct md; try reflexivity;
+        (destruct (String.eqb (m_name m) eth_block_msg); [specialize (G eq_refl); congruence|reflexivity]).
+    - destruct E2 as [E2|E2]; subst md; rewrite E1; rewrite String.eqb_refl; lia. }
+  rewrite F. lia.
+Qed.
